@@ -333,8 +333,15 @@ class X12Reader(X12Base):
         @param seg_data: Segment data instance
         @type seg_data: L{segment<segment.Segment>}
         """
-        X12Base._parse_segment(self, seg_data)
         seg_id = seg_data.get_seg_id()
+        parent = self.loops[-1][0] if self.loops else None
+        if (seg_id == 'ISA' and parent is not None) or (seg_id == 'GS' and parent != 'ISA') \
+                or (seg_id == 'ST' and parent != 'GS'):
+            # a header may only open directly inside its enclosing loop
+            err_str = '{} segment found {}'.format(seg_id,
+                'inside an open {} loop'.format(parent) if parent else 'outside of an interchange')
+            self._isa_error('024', err_str)
+        X12Base._parse_segment(self, seg_data)
         if seg_id in ('IEA', 'GE', 'SE') and not self._has_open_loop(seg_id):
             # orphan trailer: no matching header is open, nothing to close
             if seg_id == 'IEA':
